@@ -54,6 +54,9 @@ pub enum K {
     LinkChain,
     Restamp,
     WRestamp,
+    LocalCell,
+    LocalWCell,
+    Convert,
 }
 
 pub struct Role {
@@ -158,6 +161,9 @@ pub struct T {
     snaps: Vec<Option<SnapReg>>,
     wsnaps: Vec<Option<WSnapReg>>,
     iter: Option<(NewRcIter<VNode>, u32, u32)>,
+    /// thread-private cells built through the From conversions (their content is an owner like an Rc / a Weak)
+    lcell: Option<(AtomicRc<VNode>, Option<u32>)>,
+    lwcell: Option<(AtomicWeak<VNode>, Option<u32>)>,
     sh: Arc<Shared>,
     prof: Arc<Profile>,
     role: Option<usize>,
@@ -190,6 +196,8 @@ impl T {
             snaps: (0..NSN).map(|_| None).collect(),
             wsnaps: (0..NWS).map(|_| None).collect(),
             iter: None,
+            lcell: None,
+            lwcell: None,
             sh,
             prof,
             nops: 0,
@@ -1445,6 +1453,175 @@ impl T {
                 self.rec_wcell(key, CellCall::Store(v), CellRet::Unit, inv);
                 true
             }
+            K::LocalCell => {
+                // AtomicRc::from(Rc) / from(&Rc) / new / null / default, take(), Drop
+                match self.lcell.take() {
+                    None => {
+                        let i = self.rng.below(NRC as u64) as usize;
+                        let id = self.rid[i];
+                        let (cell, how) = match self.rng.below(4) {
+                            0 => {
+                                // From<&Rc>: a new owner
+                                let c = AtomicRc::from(&self.rc[i]);
+                                self.rc_add(id);
+                                (c, "AtomicRc::from(&r)")
+                            }
+                            1 => {
+                                // From<Rc>: ownership moves into the cell (ledger unchanged: still counted as rc)
+                                let (r, _) = self.take_rc(i);
+                                (AtomicRc::from(r), "AtomicRc::from(r)")
+                            }
+                            2 => {
+                                let (r, _) = self.take_rc(i);
+                                self.rc_sub(id);
+                                drop(r);
+                                (AtomicRc::default(), "AtomicRc::default()")
+                            }
+                            _ => {
+                                let (r, _) = self.take_rc(i);
+                                self.rc_sub(id);
+                                drop(r);
+                                (AtomicRc::null(), "AtomicRc::null()")
+                            }
+                        };
+                        let held = if how.contains("from") { id } else { None };
+                        let peek = cell.verif_peek();
+                        mon::eval("cell-boundary");
+                        if peek.0 != held.map_or(0, |x| obj(x).addr.load(SeqCst)) {
+                            mon::violation("C08", "C08|from-conversion-wrong-content", format!("{} holds address {:#x}, expected object #{:?}", how, peek.0, held));
+                        }
+                        self.lg(format!("lcell = {} (r{} #{:?})", how, i, id));
+                        self.lcell = Some((cell, held));
+                    }
+                    Some((mut cell, held)) => {
+                        if self.rng.chance(1, 2) {
+                            // take(): the content comes back as an Rc, the cell stays null
+                            let r = cell.take();
+                            let rid = self.id_of_rc(&r, "AtomicRc::take");
+                            if rid != held {
+                                mon::violation("C08", "C08|take-returned-other", format!("take() returned #{:?}, the private cell held #{:?}", rid, held));
+                            }
+                            if cell.verif_peek().0 != 0 {
+                                mon::violation("C08", "C08|take-left-content", "take() did not leave a null pointer".into());
+                            }
+                            let i = self.rng.below(NRC as u64) as usize;
+                            self.lg(format!("r{} = lcell.take() (#{:?}); drop(lcell)", i, rid));
+                            if let Some(n) = r.as_ref() {
+                                n.check_live(rid, "C01", "take-result");
+                            }
+                            self.set_rc(i, r, rid);
+                            drop(cell);
+                        } else {
+                            self.lg(format!("drop(lcell) (#{:?})", held));
+                            self.rc_sub(held);
+                            drop(cell);
+                        }
+                    }
+                }
+                true
+            }
+            K::LocalWCell => {
+                match self.lwcell.take() {
+                    None => {
+                        let (cell, held, how) = match self.rng.below(3) {
+                            0 => {
+                                let i = self.rng.below(NRC as u64) as usize;
+                                let c = AtomicWeak::from(&self.rc[i]);
+                                self.wk_add(self.rid[i]);
+                                (c, self.rid[i], "AtomicWeak::from(&rc)")
+                            }
+                            1 => {
+                                let i = self.rng.below(NWK as u64) as usize;
+                                let c = AtomicWeak::from(&self.wk[i]);
+                                self.wk_add(self.wkid[i]);
+                                (c, self.wkid[i], "AtomicWeak::from(&weak)")
+                            }
+                            _ => {
+                                let i = self.rng.below(NWK as u64) as usize;
+                                let (w, id) = self.take_wk(i);
+                                (AtomicWeak::from(w), id, "AtomicWeak::from(weak)")
+                            }
+                        };
+                        mon::eval("weak-cell-boundary");
+                        if cell.verif_peek().0 != held.map_or(0, |x| obj(x).addr.load(SeqCst)) {
+                            mon::violation("C09", "C09|from-conversion-wrong-content", format!("{} holds another address than object #{:?}", how, held));
+                        }
+                        self.lg(format!("lwcell = {} (#{:?})", how, held));
+                        self.lwcell = Some((cell, held));
+                    }
+                    Some((mut cell, held)) => {
+                        if self.rng.chance(1, 2) {
+                            // get_mut(): exchange the content with a register
+                            let i = self.rng.below(NWK as u64) as usize;
+                            let (w, id) = self.take_wk(i);
+                            let old = std::mem::replace(cell.get_mut(), w);
+                            let oid = self.id_of_weak(&old, "AtomicWeak::get_mut");
+                            if oid != held {
+                                mon::violation("C09", "C09|get_mut-other-content", format!("get_mut() showed #{:?}, the private cell held #{:?}", oid, held));
+                            }
+                            self.lg(format!("w{} <-> *lwcell.get_mut() (#{:?} in, #{:?} out)", i, id, oid));
+                            self.set_wk(i, old, oid);
+                            self.lwcell = Some((cell, id));
+                        } else {
+                            self.lg(format!("drop(lwcell) (#{:?})", held));
+                            self.wk_sub(held);
+                            drop(cell);
+                        }
+                    }
+                }
+                true
+            }
+            K::Convert => {
+                // From<Snapshot> for Rc / Weak / WeakSnapshot, From<WeakSnapshot> for Weak
+                let c = self.live_snaps(false);
+                if c.is_empty() {
+                    return false;
+                }
+                let j = *self.rng.pick(&c);
+                let (sn, id, g) = {
+                    let r = self.snaps[j].as_ref().unwrap();
+                    (r.s, r.id, r.guard)
+                };
+                match self.rng.below(4) {
+                    0 => {
+                        self.note_inc_from_zero(sn.verif_counts(), id);
+                        let r: Rc<VNode> = Rc::from(sn);
+                        if r.verif_addr() != sn.verif_addr() || r.tag() != sn.tag() {
+                            mon::violation("C01", "C01|conversion-differs", "Rc::from(Snapshot) returned a different pointer".into());
+                        }
+                        self.rc_add(id);
+                        let i = self.rng.below(NRC as u64) as usize;
+                        self.lg(format!("r{} = Rc::from(s{}) (#{:?})", i, j, id));
+                        self.set_rc(i, r, id);
+                    }
+                    1 => {
+                        let w: Weak<VNode> = Weak::from(sn);
+                        if w.verif_addr() != sn.verif_addr() || w.tag() != sn.tag() {
+                            mon::violation("C03", "C03|conversion-differs", "Weak::from(Snapshot) returned a different pointer".into());
+                        }
+                        self.wk_add(id);
+                        self.check_weaked(&w, "Weak::from(Snapshot)");
+                        let i = self.rng.below(NWK as u64) as usize;
+                        self.lg(format!("w{} = Weak::from(s{}) (#{:?})", i, j, id));
+                        self.set_wk(i, w, id);
+                    }
+                    2 => {
+                        let ws: WeakSnapshot<VNode> = WeakSnapshot::from(sn);
+                        let slot = self.put_wsnap(ws, g, "WeakSnapshot::from(Snapshot)");
+                        self.lg(format!("ws{} = WeakSnapshot::from(s{})", slot, j));
+                    }
+                    _ => {
+                        let ws = sn.downgrade();
+                        let w: Weak<VNode> = Weak::from(ws);
+                        self.wk_add(id);
+                        self.check_weaked(&w, "Weak::from(WeakSnapshot)");
+                        let i = self.rng.below(NWK as u64) as usize;
+                        self.lg(format!("w{} = Weak::from(s{}.downgrade()) (#{:?})", i, j, id));
+                        self.set_wk(i, w, id);
+                    }
+                }
+                true
+            }
             K::LinkChain => {
                 // build a private chain of fresh nodes and hang it under a fresh head in a register
                 let len = if self.prof.long_chain > 0 && self.rng.chance(1, 4) {
@@ -1578,6 +1755,14 @@ impl T {
         if let Some((it, id, rem)) = self.iter.take() {
             l_add(&obj(id).bulk, -(rem as i32));
             drop(it);
+        }
+        if let Some((c, held)) = self.lcell.take() {
+            self.rc_sub(held);
+            drop(c);
+        }
+        if let Some((c, held)) = self.lwcell.take() {
+            self.wk_sub(held);
+            drop(c);
         }
         for s in 0..NG {
             if self.guards[s].g.is_some() {
